@@ -117,6 +117,7 @@ struct Transport::Impl
   {
     std::condition_variable cv;
     bool done{false};
+    bool abandoned{false}; // waiter timed out and issued close(sid); guarded by syncMutex
     ConnectResult result{ConnectResult::err(TransportErrorInfo{TransportError::Timeout, "pending"})};
   };
   std::mutex syncMutex;
@@ -318,9 +319,15 @@ struct Transport::Impl
           if (it != pendingConnects.end())
           {
             op = it->second;
-            op->result = ConnectResult::ok(sid);
-            op->done = true;
-            pendingConnects.erase(it);
+            // Late connect after the waiter timed out: keep the entry so the
+            // onClose for the already-issued close(sid) still finds it and
+            // suppresses the global onClose.
+            if (!op->abandoned)
+            {
+              op->result = ConnectResult::ok(sid);
+              op->done = true;
+              pendingConnects.erase(it);
+            }
           }
         }
         // Notify outside syncMutex — avoids the woken thread immediately
@@ -851,6 +858,7 @@ inline ConnectResult Transport::connectSync(const std::string &host, std::uint16
   // returning so connectGuard's dtor (the activeConnects decrement, a syncMutex-
   // guarded mutation) runs UNDER the lock — it destructs before `lk` because it
   // is declared after it.
+  op->abandoned = true;
   lk.unlock();
   _impl->engine->close(sid);
   lk.lock();
